@@ -73,6 +73,13 @@ void harness (void)
       PREFIX (_init_with_extents) (&R, &e); want = O_IN_BOX (e, px, py);
       VP_ASSERT (MEMBER_R (px, py) == want && vp_result_canonical (res), "init_with_extents");
       ok = 1; }
+#elif CASE == 7	/* union_rect with a degenerate rectangle: result is a copy of the source (fresh or aliased destination) */
+    { int x = 3, y = -2; unsigned w = ZW, h = ZH;	/* concrete degenerate rectangle per instance (a symbolic one drags the band sweep into symbolic execution) */
+      VP_ASSUME (w == 0 || h == 0);
+      VP_ASSUME (x >= COORD_MIN && x <= COORD_MAX && y >= COORD_MIN && y <= COORD_MAX && (long long) x + w <= COORD_MAX && (long long) y + h <= COORD_MAX);
+      /* the destination holds unrelated stale content (B) unless aliased */
+      res = ALIAS == 1 ? &A : &B;
+      ok = PREFIX (_union_rect) (res, &A, x, y, w, h); want = inA; }
 #elif CASE == 6	/* 16 <-> 32 conversions of a single rectangle */
     {
 #if RBITS == 32
